@@ -1,5 +1,5 @@
 use std::{
-  collections::{BTreeMap, BTreeSet, HashMap, VecDeque},
+  collections::{BTreeMap, HashMap, VecDeque},
   ops::Bound,
 };
 
@@ -35,8 +35,11 @@ pub struct DataSampleCache<D: Keyed> {
 }
 
 pub(crate) struct InstanceMetaData {
-  instance_samples: BTreeSet<Timestamp>, // which samples belong to this instance
-  instance_state: InstanceState,         // latest known alive/not_alive state for this instance
+  // Which samples belong to this instance, in the order they were added to this
+  // cache, oldest first. For a Reliable reader this is the sequence number order
+  // of each writer, even if the samples were not received in that order.
+  instance_samples: VecDeque<Timestamp>,
+  instance_state: InstanceState, // latest known alive/not_alive state for this instance
   latest_generation_available: NotAliveGenerationCounts, // in this instance
   last_generation_accessed: NotAliveGenerationCounts, // in this instance
 }
@@ -117,7 +120,7 @@ where
     } else {
       // not found, create new one.
       let imd = InstanceMetaData {
-        instance_samples: BTreeSet::new(),
+        instance_samples: VecDeque::new(),
         instance_state: new_instance_state,
         latest_generation_available: NotAliveGenerationCounts::zero(), /* this is new instance,
                                                                         * so start from zero */
@@ -132,7 +135,9 @@ where
     };
 
     // update instance metadata
-    instance_metadata.instance_samples.insert(receive_timestamp);
+    instance_metadata
+      .instance_samples
+      .push_back(receive_timestamp);
 
     match (instance_metadata.instance_state, new_instance_state) {
       (InstanceState::Alive, _) => (), // was Alive, does not change counts
@@ -207,15 +212,11 @@ where
 
     if let Some(instance_keep_count) = sample_keep_history_limit.or(sample_keep_resource_limit) {
       let remove_count = instance_metadata.instance_samples.len() as i32 - instance_keep_count;
-      if remove_count > 0 {
-        let keys_to_remove: Vec<_> = instance_metadata
-          .instance_samples
-          .iter()
-          .take(remove_count as usize)
-          .copied()
-          .collect();
-        for k in keys_to_remove {
-          instance_metadata.instance_samples.remove(&k);
+      // Remove the oldest samples in the order of addition, not of reception: a
+      // sample that was repaired after a loss has a later receive timestamp than
+      // its successors, but is still older than them.
+      for _ in 0..remove_count {
+        if let Some(k) = instance_metadata.instance_samples.pop_front() {
           self.datasamples.remove(&k);
         }
       }
